@@ -1,3 +1,7 @@
 pub mod chunk_size;
 pub mod num_threads;
 mod utils;
+#[cfg(feature = "verif-hooks")]
+pub fn verif_div_ceil(number: usize, divider: usize) -> usize {
+    utils::div_ceil(number, divider)
+}
